@@ -83,7 +83,7 @@ type pageSpec struct {
 	inverty    bool
 	scale      bool
 	narrow     string // none I 1
-	stagger    bool   // baselines of odd columns sit half a leading lower (rows of neighbouring columns alternate)
+	stagger    bool   // columns are not baseline-aligned (staggerOff)
 	hyphen     bool   // the first body line ends in a hyphen (a word broken across lines)
 	repeat     string // none word letter: same text at a DIFFERENT position (never a sanctioned duplicate)
 	absent     map[[2]int]bool
@@ -103,11 +103,14 @@ func choose(c *harness.Ctx, K, R, W int, mapOrder bool) *pageSpec {
 		p.mapDesc = c.PickS("maporder", "asc", "desc") == "desc"
 	}
 	p.justified = c.Bool("justified")
+	hopts := []string{"none", "first"}
 	if K > 1 {
-		p.heading = c.PickS("heading", "none", "first", "last")
-	} else {
-		p.heading = c.PickS("heading", "none", "first")
+		hopts = append(hopts, "last")
 	}
+	if R > 1 {
+		hopts = append(hopts, "big") // a 30pt in-column heading in place of row 1 of column 0
+	}
+	p.heading = c.PickS("heading", hopts...)
 	if W > 1 {
 		p.shortlast = c.Bool("shortlast")
 		if R > 1 {
@@ -197,6 +200,10 @@ func (t *tokenSrc) nextHebrew() string {
 	return string([]rune{0x05D0 + rune(3*i), 0x05D0 + rune(3*i+1), 0x05D0 + rune(3*i+2)})
 }
 
+// staggerOff: how far the baselines of column c%3 sit below the grid when the page is staggered. 5pt keeps a column
+// on the "same row" as its neighbour for tabula (half a glyph height = 6pt), 7.2pt (half a leading) does not.
+var staggerOff = [3]float64{5, 0, 7.2}
+
 var bullets = []string{"-", "*", "•", "–", "—"}
 
 func (p *pageSpec) colW() float64 { return (contentW - float64(p.K-1)*gutter) / float64(p.K) }
@@ -277,10 +284,23 @@ func (p *pageSpec) build() {
 				nw = 1
 			}
 			y := rowY(row)
-			if p.stagger && col%2 == 1 {
-				y -= leading / 2
+			if p.stagger {
+				y -= staggerOff[col%3] // columns are not baseline-aligned
 			}
 			x := x0
+			if p.heading == "big" && col == 0 && row == 1 {
+				// the in-column heading: two 30pt words; its box reaches up into the rows above
+				for k := 0; k < 2; k++ {
+					w := ts.next()
+					ww := textWidth(w, 30)
+					out = append(out, frag{text: w, x: x, y: y, w: ww, size: 30, role: "heading", col: col, row: row})
+					x += ww + textWidth(" ", 30)
+				}
+				if r := x - textWidth(" ", 30); r > maxRight {
+					maxRight = r
+				}
+				continue
+			}
 			isRTL := p.rtl && col == p.K-1 && row == 0
 			// list marker in column 0
 			if p.list != "none" && col == 0 {
@@ -352,6 +372,9 @@ func (p *pageSpec) build() {
 		// single narrow glyph line under the last row of column 0
 		if p.narrow != "none" && col == 0 {
 			y := rowY(p.R-1) - leading
+			if p.stagger {
+				y -= staggerOff[0]
+			}
 			out = append(out, frag{text: p.narrow, x: x0, y: y, w: textWidth(p.narrow, bodySize), size: bodySize, role: "narrow", col: 0, row: p.R})
 		}
 	}
